@@ -361,15 +361,19 @@ def run(ctx):
         G = rng.choice([0.4, 0.8])
         n = rng.randint(1, 5)
         plans.append((G, [rng.choice([0, "partial", 0.1, 0.1, 2.5]) for _ in range(n)]))
-    for G, ds in plans:
+    plans = [(G, ds, 1.0) for G, ds in plans]
+    # the grace period is graceful_timeout, whatever shutdown_timeout (the lifespan's own allowance) is
+    plans += [(0.4, [3.0], 2.0), (2.0, [1.0, 0], 0.3)]
+    for G, ds, St in plans:
         for backend in ("asyncio", "trio"):
             ls = rng.choice([0.0, 0.0, 0.2])
-            o = scenario(backend, G, ds, lifespan_delay=ls)
+            o = scenario(backend, G, ds, lifespan_delay=ls, S=St)
+            o["S"] = St
             descs.append({k: v for k, v in o.items() if k != "answers"})
-            oracle_failures.extend(judge(o))
+            oracle_failures.extend(judge(o, S=St))
             if o.get("returned") is not None:
                 real = [int(round((d + 0.2) * 1000)) if d not in (0, "partial") else 0 for d in ds]
-                term = f"({int(G * 1000)}, 1000, [{'; '.join(str(x) for x in real)}], {int(ls * 1000)})"
+                term = f"({int(G * 1000)}, {int(St * 1000)}, [{'; '.join(str(x) for x in real)}], {int(ls * 1000)})"
                 # the model's instant, checked against the measured one with the slack of real time
                 metas.append({"backend": backend, "G": G, "durations": ds, "returned": o["returned"], "term": term})
                 cases.append(term)
